@@ -165,7 +165,7 @@ def run(chk):
     chk.stub('numqi.group.spf2.int_to_bitarray / bitarray_to_int -> little-endian bits of a 64-bit vector (validated exhaustively against the real functions for widths 1..12 on this run)')
     nmax = 2 if quick else 3
     tmax = 2 if quick else 3
-    chk.bound(n_tuple=f'1..{nmax} (digits symbolic, constrained only to be below their base; for n=3 the base-63 digit is enumerated in 63 partitions)', n_matrix=f'1..{min(nmax, 2)} (symbolic symplectic matrix)',
+    chk.bound(n_tuple=f'1..{nmax} (digits symbolic, constrained only to be below their base; n=3: the base-63 digit is enumerated - all 63 values thorough, the extreme values 0 and 62 quick)', n_matrix=f'1..{min(nmax, 2)} (symbolic symplectic matrix)',
               n_transvection=f'1..{tmax} (all ordered pairs of non-zero vectors)')
     chk.out_of_claim('n above the bounds; schmidt_orthogonalization; Python big-int overflow of int_to_bitarray (digits are assumed in range)')
     # ---- get_number
@@ -219,6 +219,12 @@ def run(chk):
         c.add(f'reach tuple [n={n}{tagf}]', inr, ir.TRUE, kind='reach')
     for n in range(1, min(nmax, 2) + 1):
         tuple_block(chk, n)
+    if nmax < 3:
+        # quick tier: two slices of the n=3 domain - the base-63 digit at its extreme values 0 and 62, the other five digits symbolic (boundary labels are where
+        # case analyses slip); the full n=3 domain is the thorough tier
+        base3 = sp.get_number(3, 'base')
+        kbig = max(range(len(base3)), key=lambda k: base3[k])
+        chk.run_partitioned([(f'n=3 digit{kbig}={v}', (lambda c, v=v: tuple_block(c, 3, {kbig: v}))) for v in (0, base3[kbig] - 1)], timeout_s=60)
     if nmax >= 3:
         # n=3 (1,451,520 tuples): the digit with the largest base (63) is enumerated, the other five stay symbolic; one forked child per value.
         # Together with get_number (|tuples| == |Sp(6,2)|) injectivity of the round trip gives bijectivity for n=3.
